@@ -130,6 +130,17 @@ def r11_1(prog: Program, rep: Report):
     rep.check(need <= names, "R11.1", su.qualname, su.loc, "should_unwrap consults the ClassVar and the Final predicate", f"should_unwrap does not consult {sorted(n.rsplit('.', 1)[-1] for n in need - names)}: that qualifier is never peeled", detail="qualifiers")
     lit_excluded = all(any(T.is_call_to(g, f"{C.INSP}.isliteral") and not pol for g, pol in pth.guards()) or T.contains(r, lambda x: x[0] == "not" and T.is_call_to(x[1], f"{C.INSP}.isliteral")) or r == ("const", False) for pth, r in P.returns(P.paths_of(prog, su)))
     rep.check(lit_excluded, "R11.1", su.qualname, su.loc, "Literal forms are never unwrapped (their arguments are values)", "should_unwrap can be true for a Literal: its first value would be taken for an annotation", detail="should_unwrap")
+    # the alias predicate recognises every alias class of the environment (typing's and a distinct typing_extensions backport)
+    ia = prog.function(f"{C.INSP}.istypealiastype")
+    tested: set[str] = set()
+    for _, r in P.returns(P.paths_of(prog, ia)):
+        for x in T.walk(r):
+            if T.is_call_to(x, "builtins.isinstance") and len(x[2]) == 2:
+                for y in P.flatten_display(prog, x[2][1]) or [x[2][1]]:
+                    if T.refname(y):
+                        tested.add(T.refname(y))
+    want = set(oracle.type_alias_classes())
+    rep.check(want <= tested, "R11.1", ia.qualname, ia.loc, f"istypealiastype recognises {sorted(want)}", f"istypealiastype tests {sorted(tested)} only: an alias built with {sorted(want - tested)} (a distinct class in this environment; the library's own compat module and tests spell aliases that way) is not unwrapped, so routines and context lookups treat the alias object as a type", detail="alias-classes")
     # the predicates themselves
     for nm, target in (("isfinal", "typing.Final"), ("isclassvartype", "typing.ClassVar")):
         g = prog.function(f"{C.INSP}.{nm}")
@@ -318,7 +329,7 @@ def r11_6(prog: Program, rep: Report):
 
 
 def run(prog: Program, rep: Report, tier: str):
-    rep.rule("R11.1", "unwrap peel-set coverage, fixpoint, exits", floor=13)
+    rep.rule("R11.1", "unwrap peel-set coverage (incl. every alias class of the environment), fixpoint, exits", floor=14)
     rep.rule("R11.2", "dispatch on the unwrapped node (shared with R05.4)", floor=4)
     rep.rule("R11.3", "context double keying (shared with R05.1)", floor=4)
     rep.rule("R11.4", "context fallback through unwrap / forward reference (C16 rules)", floor=5)
